@@ -586,6 +586,11 @@ class State:
         return norm(t) in {norm(x) for x in terms} and len(terms) == 1
 
     def p_nonempty(self, b, blk, ln, ix, t):
+        """slice[0] (the bounds check of a slice, where Vec indexing would be an Index::index call) under !is_empty()."""
+        if ix != {("const", 0)} or not ln or not all(x[0] == "len" and len(x) == 2 for x in ln):
+            return None
+        if self.nonempty_guard(b, {x[1] for x in ln}, blk):
+            return "P-nonempty: element 0 under the dominating test !is_empty()"
         return None
 
     def nonempty_guard(self, b, base_terms, site):
